@@ -1,6 +1,9 @@
 package checks
 
 import (
+	"encoding/json"
+	"fmt"
+	"os"
 	"strings"
 
 	"verif/internal/e1"
@@ -49,4 +52,48 @@ func bfsSeeded(cfg e1.Config, depth int, prefixes ...string) *e1.Stats {
 		sc.After = func(w *world.World, path []int, pre interface{}, obs string) { cfg.After(w, full(path), pre, obs) }
 	}
 	return e1.BFS(sc)
+}
+
+// replaySeq reads the action sequence of a replay file written by one of the depth-first checks (keys "actions", "path"
+// or "calls" of the replay object; entries are action names, names followed by details of the step, or "action N"
+// from the watchdog of the explorer) and maps it to indices of the action list. Entries that name no action (details
+// a step adds to its trace) are skipped.
+func replaySeq(c *Ctx, actions []string) (seq []int, ok bool) {
+	if c.Replay == "" {
+		return nil, false
+	}
+	var f struct {
+		Replay struct {
+			Actions []string `json:"actions"`
+			Path    []string `json:"path"`
+			Calls   []string `json:"calls"`
+		} `json:"replay"`
+	}
+	b, err := os.ReadFile(c.Replay)
+	if err != nil || json.Unmarshal(b, &f) != nil {
+		return nil, false
+	}
+	names := f.Replay.Actions
+	if len(names) == 0 {
+		names = f.Replay.Path
+	}
+	if len(names) == 0 {
+		names = f.Replay.Calls
+	}
+	for _, n := range names {
+		best := -1
+		for k, a := range actions {
+			if n == a || n == fmt.Sprintf("action %d", k) {
+				best = k
+				break
+			}
+			if strings.HasPrefix(n, a) && (best < 0 || len(a) > len(actions[best])) {
+				best = k
+			}
+		}
+		if best >= 0 {
+			seq = append(seq, best)
+		}
+	}
+	return seq, len(seq) > 0
 }
